@@ -205,7 +205,21 @@ class SGen:
             o = self.r.choice(plain_outer)
             c = self.r.choice(INT_COLS)
             inner = self.field(srcs, "int", False)
-            q["where"] = ["t", ["basic", self.r.choice(["eq", "eq", "lt", "gte"]), inner, ["field", c, list(o.tref), None], None]]
+            corr = ["basic", self.r.choice(["eq", "eq", "lt", "gte"]), inner, ["field", c, list(o.tref), None], None]
+            # the correlated conjunct among 0-2 purely local ones, in any position (left-nested AND, at term or item level):
+            # the builder issues one where() call per conjunct, in this order
+            conj = [corr] + [self.crit(srcs, 0, False) for _ in range(self.r.choice([0, 1, 1, 2]))]
+            self.r.shuffle(conj)
+            if self.r.random() < 0.5:
+                w = ["t", conj[0]]
+                for x in conj[1:]:
+                    w = ["cplx", "and", w, ["t", x]]
+            else:
+                t = conj[0]
+                for x in conj[1:]:
+                    t = ["cplx", "and", t, x, None]
+                w = ["t", t]
+            q["where"] = w
         elif r < 0.75:
             q["where"] = ["t", self.crit(srcs, 1, False)]
 
